@@ -328,7 +328,9 @@ PROPS = {
             'body go on normally and hands on the FIRST divert that comes out of either, unchanged - none is swallowed; Loop::execute ends on '
             'the first result that is neither normal nor a continue of this very loop (which starts the next round), or on a false condition, '
             'and hands on exactly that result with one break / continue level taken off (Break{0} ends the loop normally, Break{n} becomes '
-            'Break{n-1}, Continue{n} becomes Continue{n-1}, return / exit / interrupt pass through). '
+            'Break{n-1}, Continue{n} becomes Continue{n-1}, return / exit / interrupt pass through); when the loop ends normally its '
+            'status is the one the LAST execution of its body left, however that execution ended (finding F7: a round ended by `continue` '
+            'was not recorded; fixed), and what it started with if the body never ran. '
             '(4) Unit condframe (Verus, shared with C10): one element of an and-or list after the first runs iff (`&&` and the status so far '
             'is zero) or (`||` and it is not), otherwise nothing runs and the status stays - left to right, equal precedence, because each '
             'element only looks at the status left by what ran before it; `!` inverts only the status (0 <-> 1 / non-zero -> 0) and only when '
